@@ -276,6 +276,8 @@ def run(ctx):
     ctx.do(_c03.r3_1_2)  # the reverse indexes every UID / key lookup goes through follow the lists
     from . import c14 as _c14
     ctx.do(_c14.r14_4)  # `*` in a SEARCH set key = the same maximum as in FETCH/STORE/COPY
+    from . import c05 as _c05b
+    ctx.do(_c05b.r5_3)  # UID EXPUNGE removes what its set denotes - an empty denotation removes nothing
     ctx.note("R15.2 unit kinds (UID vs sequence-number lists at operation boundaries) decided by C10 R10.4; bounded expansion by C06 R6.6")
     for k, v in ALLOWED_DESTRUCTURE.items():
         ctx.trust(f"frozen: may destructure a message set: {k} - {v}")
